@@ -19,6 +19,7 @@ from mc.models import protocol
 
 MOD = "mc.props.c20"
 ALLOWED = [[32, 33, False], [97, 122, False]]
+ALLOWED_WIDE = [[32, 126, False]]
 CELLS = ["ab", "", "a!", "abcd", "A", " ", "b"]
 
 
@@ -31,14 +32,14 @@ def decls_for(config):
         elif size:
             decl["length"] = [[1, size, False]]
         if config.get("allowed"):
-            decl["allowed"] = ALLOWED
+            decl["allowed"] = ALLOWED_WIDE if config["allowed"] == "wide" else ALLOWED
         decls.append(harness.complete(decl))
     return decls
 
 
 def make_cid(config, decls, type_name="VerifRec", check_type="VerifProto"):
     rows = harness.cid_rows(config["preset"], decls, [["k%d" % i, check_type, rule] for i, rule in enumerate(config["checks"])], config["header"],
-                            allowed=ALLOWED if config.get("allowed") else None, line_delimiter="lf")
+                            allowed=(ALLOWED_WIDE if config["allowed"] == "wide" else ALLOWED) if config.get("allowed") else None, line_delimiter="lf")
     for row in rows:
         if row[0] == "F":
             row[5] = type_name
@@ -137,18 +138,33 @@ def judge(case, part):
     part.evaluations += 1
     cid = harness.make_cid(make_cid(config, decls))
     del recording.LOG[:]
-    for run in case["runs"]:
-        execute(cid, config, decls, run)
-        part.transitions += 1 + len(run["table"])
-    recorded = [list(entry) for entry in recording.LOG]
-    runs = [model_run(config, run) for run in case["runs"]]
-    ok, detail = protocol.matches(recorded, decls, config["checks"], config["header"], runs)
+    ok, detail, recorded = True, None, []
+    if any("config" in run for run in case["runs"]):
+        # runs on different CIDs in one process: each run is judged against its own CID
+        for run in case["runs"]:
+            run_config = run.get("config", config)
+            run_decls = decls_for(run_config)
+            run_cid = harness.make_cid(make_cid(run_config, run_decls))
+            del recording.LOG[:]
+            execute(run_cid, run_config, run_decls, run)
+            part.transitions += 1 + len(run["table"])
+            recorded = [list(entry) for entry in recording.LOG]
+            ok, detail = protocol.matches(recorded, run_decls, run_config["checks"], run_config["header"], [model_run(run_config, run)])
+            if not ok:
+                break
+    else:
+        for run in case["runs"]:
+            execute(cid, config, decls, run)
+            part.transitions += 1 + len(run["table"])
+        recorded = [list(entry) for entry in recording.LOG]
+        runs = [model_run(config, run) for run in case["runs"]]
+        ok, detail = protocol.matches(recorded, decls, config["checks"], config["header"], runs)
     part.validated += 1
     if any(run["table"] for run in case["runs"]) or config["checks"]:
         part.nontrivial += 1
     part.outcome("log-length-%d" % min(len(recorded), 12))
     if not ok:
-        kinds = "+".join(run["kind"] + (":" + run["mode"] if run["kind"].startswith("reader") else "") for run in case["runs"])
+        kinds = "+".join(run["kind"] + (":" + run["mode"] if run["kind"].startswith("reader") else "") + ("@other-cid" if "config" in run else "") for run in case["runs"])
         part.fail(tag % ("call-sequence-differs|" + kinds), case, detail, recorded[:40])
     # state of the last run as far as the implementation showed it: rows fed, value hooks and row checks performed
     last = case["runs"][-1]
@@ -225,6 +241,19 @@ def explore(item):
             for table_a in short_tables[:3]:
                 for table_b in short_tables[:3]:
                     judge({"config": config, "runs": [dict(first, table=table_a), dict(second, table=table_b)]}, part)
+    # runs on two different CIDs in one process (the other CID differs in its allowed characters, empty flags or checks)
+    others = [dict(config, allowed="wide"), dict(config, allowed=False), dict(config, fields=[(not e, s) for e, s in config["fields"]]), dict(config, checks=list(reversed(config["checks"])) + ["ok"])]
+    cross_tables = [header_rows + [pool[i] for i in indexes] for indexes in ([], list(range(len(pool))), list(range(len(pool) - 1, -1, -1)))]
+    for other in others:
+        if other == config:
+            continue
+        other_decls = decls_for(other)
+        for first in (seconds[1], seconds[-1]):
+            for second in (seconds[1], seconds[2], seconds[-1]):
+                for table in cross_tables:
+                    if not representable(other, other_decls, table):
+                        continue
+                    judge({"config": config, "runs": [dict(first, table=table, config=other), dict(second, table=table, config=config)]}, part)
     part.state((json.dumps(config),))
     part.sample({"config": config, "runs": [dict(run_variants("quick")[3], table=header_rows + pool[:2])]}, limit=1)
     return part
